@@ -3,8 +3,8 @@ package c13
 
 import (
 	"fmt"
-	"os"
 	"math/big"
+	"os"
 	"strings"
 	"testing"
 
@@ -27,10 +27,10 @@ type Level struct {
 
 // Case: base type, typedef levels from the base outwards, and the leaves (each its own final level).
 type Case struct {
-	Base   string  `json:"base"`
-	FD     int     `json:"fd,omitempty"`
-	Chain  []Level `json:"chain"`  // Chain[0] is the typedef directly on the base
-	Leaves []Level `json:"leaves"` // each leaf uses the last typedef (or the base) with its own restriction / default
+	Base   string   `json:"base"`
+	FD     int      `json:"fd,omitempty"`
+	Chain  []Level  `json:"chain"`  // Chain[0] is the typedef directly on the base
+	Leaves []Level  `json:"leaves"` // each leaf uses the last typedef (or the base) with its own restriction / default
 	Probes []string `json:"probes,omitempty"`
 }
 
@@ -199,7 +199,11 @@ func genCase(t *rapid.T) Case {
 				}
 				np := g.pick(3, "npat")
 				for i := 0; i < np; i++ {
-					l.Patterns = append(l.Patterns, patternPool[g.pick(len(patternPool), "pat")])
+					if g.pick(2, "patgrammar") == 0 {
+						l.Patterns = append(l.Patterns, vt.GenPattern(g.pick, 2))
+					} else {
+						l.Patterns = append(l.Patterns, patternPool[g.pick(len(patternPool), "pat")])
+					}
 				}
 				if g.pick(30, "wrongkind") == 17 {
 					l.Range = "1..5"
